@@ -39,6 +39,11 @@ def _table(f, construct, node=None):
     for cand in (getattr(node, "_parent", None), call):
         if isinstance(cand, ast.Call) and cand.args and isinstance(cand.args[0], ast.Constant):
             lit = cand.args[0].value
+        elif isinstance(cand, ast.Call) and cand.args and isinstance(cand.args[0], ast.Name) and f is not None:
+            # a module-level string constant (`_UNNAMED_PREFIX = "unnamed."`)
+            vals = [st.value.value for st in f.module.tree.body if isinstance(st, ast.Assign) and len(st.targets) == 1 and isinstance(st.targets[0], ast.Name) and st.targets[0].id == cand.args[0].id and isinstance(st.value, ast.Constant)]
+            if len(vals) == 1:
+                lit = vals[0]
     for (suffix, c, l), reason in R1_TABLE.items():
         if m.endswith(suffix) and c == construct and (l is None or l == lit):
             return reason
